@@ -23,6 +23,7 @@ import (
 	"fmt"
 	"io"
 	"log/slog"
+	"math"
 	"math/rand"
 	"os"
 	"os/exec"
@@ -306,7 +307,7 @@ func c26Close(st *c26State, nm string) (vig bool, closed bool) {
 	select {
 	case v := <-done:
 		return v, true
-	case <-time.After(60 * time.Second):
+	case <-time.After(HxScale(60 * time.Second)):
 		return false, false
 	}
 }
@@ -328,7 +329,7 @@ func c26Flush(st *c26State, names map[string]bool) {
 		}()
 		select {
 		case <-done:
-		case <-time.After(60 * time.Second):
+		case <-time.After(HxScale(60 * time.Second)):
 		}
 	}
 }
@@ -380,7 +381,7 @@ func c26StopRig(st *c26State) string {
 	res := "ok"
 	select {
 	case <-done:
-	case <-time.After(60 * time.Second):
+	case <-time.After(HxScale(60 * time.Second)):
 		res = "hang"
 	}
 	lock := 0
@@ -484,6 +485,12 @@ func c26Decode(rpc c26Rpc, mode, hx string) (proto.Message, error) {
 
 // c26Call invokes the handler and classifies what the caller sees.
 func c26Call(st *c26State, rpc c26Rpc, msg proto.Message) (class string, recovered int64) {
+	return c26CallT(st, rpc, msg, HxScale(c26CallTimeout), HxScale(c26CallGrace))
+}
+
+// c26CallT: the client's context ends after `timeout` (as a client deadline does); a handler that is not back `grace`
+// after that is hung — it ignores the end of its caller's context, or it is stuck.
+func c26CallT(st *c26State, rpc c26Rpc, msg proto.Message, timeout, grace time.Duration) (class string, recovered int64) {
 	p0 := atomic.LoadInt64(&c26Panics)
 	gw := reflect.ValueOf(*st.rig.GW)
 	var out []reflect.Value
@@ -498,7 +505,9 @@ func c26Call(st *c26State, rpc c26Rpc, msg proto.Message) (class string, recover
 		}()
 		switch rpc.kind {
 		case "unary":
-			out = gw.MethodByName(rpc.name).Call([]reflect.Value{reflect.ValueOf(context.Background()), reflect.ValueOf(msg)})
+			ctx, cancel := context.WithTimeout(context.Background(), timeout)
+			defer cancel()
+			out = gw.MethodByName(rpc.name).Call([]reflect.Value{reflect.ValueOf(ctx), reflect.ValueOf(msg)})
 		case "sstream":
 			ctx, cancel := context.WithCancel(context.Background())
 			if strings.HasPrefix(rpc.name, "Subscribe") {
@@ -514,10 +523,10 @@ func c26Call(st *c26State, rpc c26Rpc, msg proto.Message) (class string, recover
 	}()
 	select {
 	case <-finished:
-	case <-time.After(c26CallTimeout):
+	case <-time.After(timeout):
 		select {
-		case <-finished: // slow, not stuck
-		case <-time.After(c26CallGrace):
+		case <-finished: // slow, or it waited for its context to end: not stuck
+		case <-time.After(grace):
 			return "hang", atomic.LoadInt64(&c26Panics) - p0
 		}
 	}
@@ -548,6 +557,40 @@ func c26Call(st *c26State, rpc c26Rpc, msg proto.Message) (class string, recover
 		return "nilnil", recovered // the stream handler returned nil after a recovered panic
 	}
 	return "resp", recovered
+}
+
+// A granted business lock is given back right away with the ID the response carries, so that no request of the case
+// waits for an earlier one (a lock lives until its TTL, which may be 292 years).  A lock that is already gone then —
+// although more than ten seconds of TTL were asked for — was not held for its TTL: class `lostlock`.
+func c26LockRelease(st *c26State, req *hydrapb.LockRequest, class string) string {
+	if class != "resp" || !c26LastResp.IsValid() || c26LastResp.IsNil() {
+		return class
+	}
+	r, ok := c26LastResp.Interface().(*hydrapb.LockResponse)
+	if !ok {
+		return class
+	}
+	_, err := st.rig.GW.Unlock(context.Background(), &hydrapb.UnlockRequest{Key: req.GetKey(), LockID: r.GetLockID()})
+	if err != nil && req.GetTTL() > 10000 {
+		return "lostlock"
+	}
+	return class
+}
+
+// mode `c`: the key is held by someone else (TTL ten minutes) when the request arrives with a client deadline of 400 ms.
+// Well defined: the call comes back with an error once its context has ended.  Afterwards the holder unlocks.
+func c26LockContended(st *c26State, rpc c26Rpc, req *hydrapb.LockRequest) (string, int64) {
+	hold, err := st.rig.GW.Lock(context.Background(), &hydrapb.LockRequest{Key: req.GetKey(), TTL: 600000})
+	if err != nil || hold == nil {
+		return "rig-error:holder-lock-failed", 0
+	}
+	class, rec := c26CallT(st, rpc, req, 400*time.Millisecond, HxScale(5*time.Second))
+	_, _ = st.rig.GW.Unlock(context.Background(), &hydrapb.UnlockRequest{Key: req.GetKey(), LockID: hold.GetLockID()})
+	if class == "resp" {
+		// granted although the key was held: exclusivity is C14's subject; give it back and report what was seen
+		class = c26LockRelease(st, req, class)
+	}
+	return class, rec
 }
 
 func c26NoFields(t reflect.Type) bool {
@@ -614,7 +657,17 @@ func c26Do(st *c26State, rpc c26Rpc, msg proto.Message) string {
 	if c26Mode == "p" {
 		atomic.StoreInt32(&c26InjectPanic, 1)
 	}
-	class, rec := c26Call(st, rpc, msg)
+	var class string
+	var rec int64
+	switch {
+	case rpc.name == "Lock" && c26Mode == "c":
+		class, rec = c26LockContended(st, rpc, msg.(*hydrapb.LockRequest))
+	case rpc.name == "Lock":
+		class, rec = c26Call(st, rpc, msg)
+		class = c26LockRelease(st, msg.(*hydrapb.LockRequest), class)
+	default:
+		class, rec = c26Call(st, rpc, msg)
+	}
 	atomic.StoreInt32(&c26InjectPanic, 0)
 	if c26Mode == "f" && class != "hang" {
 		// mode `f`: the swamps stay open, what is waiting for the writer is flushed to disk (as the write-interval
@@ -849,7 +902,7 @@ func c26Child(line string) string {
 	go func() { done <- cmd.Wait() }()
 	select {
 	case err = <-done:
-	case <-time.After(240 * time.Second):
+	case <-time.After(HxScale(240 * time.Second)):
 		_ = cmd.Process.Kill()
 		return "panic p=0 lock=0 vig=0 store=same close=hang"
 	}
@@ -1010,7 +1063,7 @@ type c26Mut struct {
 type c26Op struct {
 	path  []int
 	label string
-	kind  string // "", "enum", "nilmsg", "emptymsg", "oversize": always run in the quick tier
+	kind  string // "", "enum", "nilmsg", "emptymsg", "oversize", "negint": always run in the quick tier
 	f     func(m protoreflect.Message)
 }
 
@@ -1186,6 +1239,12 @@ func c26Mutations(base proto.Message, rng *rand.Rand, doubles int) []c26Mut {
 						set(protoreflect.ValueOfString(nm))
 					}
 					set(protoreflect.ValueOfString("c26/seed/" + strings.Repeat("n", 300)))
+					// three well-formed parts, longer than the V2 file header's 16-bit name length can say
+					curKind = "oversize"
+					set(protoreflect.ValueOfString("c26/seed/" + strings.Repeat("n", 65536-9)))   // 65535 bytes: the longest storable name
+					set(protoreflect.ValueOfString("c26/seed/" + strings.Repeat("n", 65536-8)))   // 65536 bytes
+					set(protoreflect.ValueOfString("c26/seed/" + strings.Repeat("n", 70000)))
+					curKind = ""
 				} else {
 					for _, v := range []string{"", "nokey", "s1", "sl", "by"} {
 						set(protoreflect.ValueOfString(v))
@@ -1210,13 +1269,23 @@ func c26Mutations(base proto.Message, rng *rand.Rand, doubles int) []c26Mut {
 			case fd.Kind() == protoreflect.BoolKind:
 				set(protoreflect.ValueOfBool(!m.Get(fd).Bool()))
 			case fd.Kind() == protoreflect.Int32Kind || fd.Kind() == protoreflect.Sint32Kind:
-				for _, v := range []int32{0, 1, -1, 2147483647, -2147483648} {
+				for _, v := range []int32{0, 1, 2147483647} {
 					set(protoreflect.ValueOfInt32(v))
 				}
+				curKind = "negint" // negative counts / offsets (Limit, From, HowMany, MaxResults …): in every quick run
+				for _, v := range []int32{-1, -2147483648} {
+					set(protoreflect.ValueOfInt32(v))
+				}
+				curKind = ""
 			case fd.Kind() == protoreflect.Int64Kind:
-				for _, v := range []int64{0, 1, -1, 9223372036854775807} {
+				for _, v := range []int64{0, 1, 9223372036854775807} {
 					set(protoreflect.ValueOfInt64(v))
 				}
+				curKind = "negint"
+				for _, v := range []int64{-1, -9223372036854775808} {
+					set(protoreflect.ValueOfInt64(v))
+				}
+				curKind = ""
 			case fd.Kind() == protoreflect.Uint32Kind:
 				for _, v := range []uint32{0, 1, 4294967295} {
 					set(protoreflect.ValueOfUint32(v))
@@ -1309,6 +1378,12 @@ func c26Directed(rpc c26Rpc) []c26Mut {
 			{&hydrapb.Uint32SliceDeleteRequest{IslandID: c26Island, SwampName: S, KeySlicePairs: []*hydrapb.KeySlicePair{{Key: "s1", Values: []uint32{1}}}}, "Key", "directed"},
 			{&hydrapb.Uint32SliceDeleteRequest{IslandID: c26Island, SwampName: S, KeySlicePairs: []*hydrapb.KeySlicePair{{Key: "sl", Values: []uint32{1, 2, 3}}}}, "Values", "directed"},
 		}
+	case "Lock":
+		var out []c26Mut
+		for _, t := range []int64{0, 1, 1000, 1001, math.MaxInt64, -1, math.MinInt64, 9223372036854, 9223372036855} {
+			out = append(out, c26Mut{&hydrapb.LockRequest{Key: fmt.Sprintf("lk-ttl-%d", t), TTL: t}, fmt.Sprintf("TTL=%d:expect=resp", t), "directed"})
+		}
+		return out
 	case "Uint32SliceSize":
 		return []c26Mut{{&hydrapb.Uint32SliceSizeRequest{IslandID: c26Island, SwampName: "c26/none/missing", Key: "sl"}, "SwampName", "directed"}}
 	case "Uint32SliceIsValueExist":
@@ -1454,13 +1529,16 @@ func c26EntryShape(m protoreflect.Message, mode string) string {
 	if fd := get("From"); fd != nil && (fd.Kind() == protoreflect.Int32Kind || fd.Kind() == protoreflect.Int64Kind) {
 		fn = m.Get(fd).Int() < 0
 	}
-	return fmt.Sprintf("p%d,ne%s,ep%s,x%s,k%s,kv%s,kb%s,fn%s,iz%s,oe%s,mn%s,pe%s,cap%s,lk%s,li%s,t%s", len(parts), c26B(nm == ""), c26B(ep), c26B(exist), keys,
-		c26B(kv), c26B(kb), c26B(fn), c26B(iz), c26B(oe), c26B(mn), c26B(pe), cp, c26B(lk), c26B(li), c26B(!c26GenTel))
+	return fmt.Sprintf("p%d,ne%s,ep%s,x%s,k%s,kv%s,kb%s,fn%s,iz%s,oe%s,mn%s,pe%s,cap%s,lk%s,li%s,t%s,nl%s", len(parts), c26B(nm == ""), c26B(ep), c26B(exist), keys,
+		c26B(kv), c26B(kb), c26B(fn), c26B(iz), c26B(oe), c26B(mn), c26B(pe), cp, c26B(lk), c26B(li), c26B(!c26GenTel), c26B(len(nm) > 65535))
 }
 
 func c26Shape(msg proto.Message, mode string) string {
 	m := msg.ProtoReflect()
 	out := "top=" + c26EntryShape(m, mode)
+	if mode == "c" {
+		out += ",lh1" // the lock key is held by another caller when the request arrives
+	}
 	fds := m.Descriptor().Fields()
 	for _, n := range []string{"Swamps", "Requests", "Queries", "Targets"} {
 		if fd := fds.ByName(protoreflect.Name(n)); fd != nil && fd.IsList() && fd.Kind() == protoreflect.MessageKind {
@@ -1559,6 +1637,11 @@ func c26Gen(rng *rand.Rand, tier string, w *bufio.Writer) {
 			}
 			for _, d := range c26Directed(rpc) {
 				c26Emit(w, rpc, d.msg, "w", d.label)
+			}
+			if rpc.name == "Lock" {
+				// the key is held by another caller: the request must come back once its own context has ended
+				c26Emit(w, rpc, &hydrapb.LockRequest{Key: "lk-contended", TTL: 5000}, "c", "contended:expect=err")
+				c26Emit(w, rpc, &hydrapb.LockRequest{Key: "lk-contended-max", TTL: math.MaxInt64}, "c", "contended:expect=err")
 			}
 			dbl := doubles
 			if vi > 0 {
